@@ -20,7 +20,7 @@ use std::hash::{Hash, Hasher};
 pub fn def() -> PropDef {
     PropDef {
         id: "C11",
-        rule: "inputs: hit-pattern events with extreme edits and bank-level faults (duplicates, drops, renames, foreign and corrupted banks), forward-model multi-track events with integer noise, inconsistent PWB messages (two chunk groups whose payloads claim the same board/chip, one waveform shorter than the delay), and a PWB message with one chunk repeated under the same id but with other samples; histories: identity, reversal, every adjacent transposition (<= 80 banks), generated permutations; schedules: the same bank list evaluated twice in one thread, in 4 other threads, and (sampled) in fresh child processes, i.e. under different HashMap seeds; oracle: build outcome and - through the read-only hook - both signal arrays and the timestamp are identical for every order (cheap, many orders), and the full result string (Ok/Err, timestamp, avalanche list as a sequence by bits, vertex by bits) is identical for reversal, generated permutations, threads and processes; non-trivial = Ok events with a PWB message of >= 2 chunks and >= 20 avalanches under a non-identity order, or a malformed event; distinct by bank-list hash",
+        rule: "(also: events with two complete PWB messages of one board and chip carrying different pad channels, so that some bank orders deliver them one after the other and some interleave them) inputs: hit-pattern events with extreme edits and bank-level faults (duplicates, drops, renames, foreign and corrupted banks), forward-model multi-track events with integer noise, inconsistent PWB messages (two chunk groups whose payloads claim the same board/chip, one waveform shorter than the delay), and a PWB message with one chunk repeated under the same id but with other samples; histories: identity, reversal, every adjacent transposition (<= 80 banks), generated permutations; schedules: the same bank list evaluated twice in one thread, in 4 other threads, and (sampled) in fresh child processes, i.e. under different HashMap seeds; oracle: build outcome and - through the read-only hook - both signal arrays and the timestamp are identical for every order (cheap, many orders), and the full result string (Ok/Err, timestamp, avalanche list as a sequence by bits, vertex by bits) is identical for reversal, generated permutations, threads and processes; non-trivial = Ok events with a PWB message of >= 2 chunks and >= 20 avalanches under a non-identity order, or a malformed event; distinct by bank-list hash",
         assumptions: &[
             "which error variant wins may depend on order; only Ok-vs-Err and the Ok value are compared",
             "OS thread interleavings are not controlled: only thread identity, repetition and process boundaries are varied",
@@ -39,6 +39,10 @@ pub enum C11Case {
     /// (same board, chip, layout and chunk ids, other samples): a repeated chunk
     /// id whose two copies differ
     RivalChunk { board: u8, chip: u8, samples: u16, chunk_size: u16, channels: Vec<u16>, seed: u64, which: u16, perms: Vec<Vec<u16>> },
+    /// two COMPLETE messages of the same board and chip in one event, the
+    /// second with other pad channels than the first (or with none): some bank
+    /// orders deliver one message after the other, some interleave them
+    SecondMessage { board: u8, chip: u8, samples: u16, chunk_size: u16, channels_a: Vec<u16>, channels_b: Vec<u16>, seed: u64, perms: Vec<Vec<u16>> },
 }
 
 impl C11Case {
@@ -50,7 +54,7 @@ impl C11Case {
     }
     fn perms(&self) -> &Vec<Vec<u16>> {
         match self {
-            C11Case::Hits { perms, .. } | C11Case::Forward { perms, .. } | C11Case::Inconsistent { perms, .. } | C11Case::RivalChunk { perms, .. } => perms,
+            C11Case::Hits { perms, .. } | C11Case::Forward { perms, .. } | C11Case::Inconsistent { perms, .. } | C11Case::RivalChunk { perms, .. } | C11Case::SecondMessage { perms, .. } => perms,
         }
     }
     fn banks(&self) -> Vec<Bank> {
@@ -92,6 +96,29 @@ impl C11Case {
                 let mut banks = vec![trg_bank(9)];
                 banks.extend(msg(ca, *short));
                 banks.extend(msg(cb, *long));
+                banks
+            }
+            C11Case::SecondMessage { board, chip, samples, chunk_size, channels_a, channels_b, seed, .. } => {
+                let geo = Geo::sim();
+                let mut installed: Vec<usize> = geo.pad.values().map(|x| x.0).collect();
+                installed.sort_unstable();
+                installed.dedup();
+                let b = installed[*board as usize % installed.len()];
+                let idx = |v: &Vec<u16>| -> Vec<u16> {
+                    let mut ch: Vec<u16> = v.iter().map(|c| pad_readout_index((c - 1) % 72 + 1)).collect();
+                    ch.sort_unstable();
+                    ch.dedup();
+                    ch
+                };
+                let a = idx(channels_a);
+                let bch: Vec<u16> = idx(channels_b).into_iter().filter(|c| !a.contains(c)).collect();
+                let message = |ch: &Vec<u16>, salt: u64| -> Vec<Bank> {
+                    let chans = ch.iter().map(|&k| (k, (0..*samples as u64).map(|t| 1725 - (mix(*seed ^ salt ^ k as u64, t) % 900) as i16).collect())).collect();
+                    pwb_banks(b, *chip % 4, chans, *samples, *chunk_size)
+                };
+                let mut banks = vec![trg_bank(9)];
+                banks.extend(message(&a, 0));
+                banks.extend(message(&bch, 0xB0B));
                 banks
             }
             C11Case::RivalChunk { board, chip, samples, chunk_size, channels, seed, which, .. } => {
@@ -231,6 +258,7 @@ fn oracle(c: &C11Case, processes: bool, ev: &mut Ev) -> Outcome {
         C11Case::Forward { .. } => "forward",
         C11Case::Inconsistent { .. } => "inconsistent-pwb",
         C11Case::RivalChunk { .. } => "rival-chunk",
+        C11Case::SecondMessage { .. } => "second-message",
     };
     ev.label(&format!("family:{kind}"));
     ev.label(if full.starts_with("Ok") { "result:Ok" } else { "result:Err" });
@@ -259,6 +287,8 @@ fn case(tier: Tier) -> impl Strategy<Value = C11Case> {
             .prop_map(|(board, chip_a, chip_b, short, long, channels, seed, perms)| C11Case::Inconsistent { board, chip_a, chip_b, short, long, channels, seed, perms }),
         1 => (any::<u8>(), 0u8..4, 101u16..300, prop_oneof![Just(1400u16), 60u16..600], vec(1u16..=72, 1..=8), any::<u64>(), any::<u16>(), perms())
             .prop_map(|(board, chip, samples, chunk_size, channels, seed, which, perms)| C11Case::RivalChunk { board, chip, samples, chunk_size, channels, seed, which, perms }),
+        1 => (any::<u8>(), 0u8..4, 101u16..200, prop_oneof![Just(1400u16), 60u16..600], vec(1u16..=72, 0..=4), vec(1u16..=72, 0..=4), any::<u64>(), perms())
+            .prop_map(|(board, chip, samples, chunk_size, channels_a, channels_b, seed, perms)| C11Case::SecondMessage { board, chip, samples, chunk_size, channels_a, channels_b, seed, perms }),
     ]
 }
 
